@@ -1039,16 +1039,13 @@ func (c *codegen) assign(x *ast.AssignStmt) []string {
 			c.fail(x, "assignment of a multi-valued call")
 		}
 		if len(x.Lhs) > 1 {
-			names := map[string]bool{}
-			for _, l := range x.Lhs {
-				if id := rootIdent(l); id != nil {
-					names[id.Name] = true
-				}
-			}
-			for _, r := range x.Rhs {
-				if usesIdent(r, names) {
-					c.fail(x, "parallel assignment whose right side reads an assigned variable")
-				}
+			// Go evaluates all right sides first and assigns afterwards; the translation assigns one after
+			// the other, which is the same unless a right side reads the root variable of an EARLIER left
+			// side (code_desugar.go: tupleDependency; `n, k = n+nn, k+kk` is fine, `a, b = b, a` is not).
+			// The normalisation pass has already introduced temporaries for such statements in statement
+			// lists; what arrives here with a dependency is in a position it does not handle.
+			if tupleDependency(x.Lhs, x.Rhs) != 0 {
+				c.fail(x, "parallel assignment whose right side reads an earlier assigned variable")
 			}
 		}
 		var lines []string
